@@ -22,7 +22,7 @@ def analyze(ctx, want):
                           (r"CompiledDfa as std::convert::From<internal::nfa::Nfa>>::from$", "nfa", "single")):
         fn = F.fn(pat)
         ctx.analysed_fn(fn)
-        ex, paths = run_fn(fn, F, LogModel(), max_paths=6000, desugar=r"Entry::<.*>::or_insert_with", inline=r"ids::StateSetID::new$")   # any/find are read as terms here; the entry API as the two cases it stands for
+        ex, paths = run_fn(fn, F, LogModel(), max_paths=6000, desugar=r"Entry::<.*>::or_insert_with|iter::Iterator>::for_each", inline=r"ids::StateSetID::new$")   # any/find are read as terms here; the entry API as the two cases it stands for
         if ex.truncated:
             ctx.missing("C02.d", "path enumeration of %s truncated" % fn.name)
             continue
@@ -168,6 +168,11 @@ def analyze(ctx, want):
             for e in p.events:
                 if e[0] == "call" and re.search(r"Vec::<.*StateData>::push$", e[2]):
                     asm_ok["states"] = True
+                # ... or all at once: extend(repeat_with(StateData::new).take(state_map.len())) / resize_with
+                if e[0] == "call" and re.search(r"Vec<.*StateData> as std::iter::Extend<.*>>::extend|Vec::<.*StateData>::(extend|resize_with|resize)", e[2]):
+                    a_ = S.fstr(argval(e, 1)) + " " + (S.fstr(argval(e, 2)) if len(e[3]) > 2 else "")
+                    if re.search(r"HashMap::len\(", a_) and "StateData::new" in (a_ + str(e[3])):
+                        asm_ok["states"] = True
                 if e[0] == "call" and re.search(r"Vec::<\(.*CharClassID, .*StateSetID\)>::push$", e[2]):
                     v = argval(e, 1)
                     tgt = S.fstr(e[3][0])
@@ -181,7 +186,7 @@ def analyze(ctx, want):
         ob("C02.d", "%s:one-state-per-closure" % tag, asm_ok["states"], "states are pushed in a loop over 0..state_map.len()", fn.loc())
         ob("C02.d", "%s:each-recorded-transition-installed-at-its-source" % tag, asm_ok["trans"], "states[from].transitions.push((cc, to)) for (from, cc, to) in transitions", fn.loc())
         ob("C02.d", "%s:accepting-flags-installed-at-their-state" % tag, asm_ok["ends"], "end_states[state] = (true, terminal) for (state, terminal) in accepting_states", fn.loc())
-        its = [M.call_name(t) for bb, t in fn.calls(ADAPTERS)]
+        its = [M.call_name(t) for bb, t in fn.calls(ADAPTERS) if not re.search(r"^<std::iter::Repeat(With|N)?<", M.call_name(t))]   # (repeat(..).take(n) builds n fresh values, it filters nothing)
         ob("C02.d", "%s:no-filter-in-the-construction" % tag, not its, "iterator adapters: %s" % its, fn.loc())
         # the result goes through the minimizer
         mz = [p for p in paths if p.calls(r"Minimizer::minimize$")]
@@ -305,7 +310,7 @@ def analyze(ctx, want):
     search_rule(r"MultiPatternNfa::find_nfa$", "find_nfa:first-nfa-containing-the-state", "self.nfas", is_some_item, is_none,
                 lambda c: c[0] == "app" and re.search(r"Nfa::contains_state$", c[1]) is not None and "item@" in S.fstr(c[2][0]) and S.fstr(c[2][1]) in ("state", "state_id"))
     search_rule(r"internal::nfa::Nfa::contains_state$", "contains_state:any-state-with-that-id", "self.states", is_true, is_false,
-                lambda c: is_eq_of(c, r"item@bb\d+\)?\.state$", r"^state$"), inline=r"NfaState::id$")
+                lambda c: is_eq_of(c, r"item@bb\d+\)?\.state$", r"^state$"), inline=r"NfaState::id$|internal::nfa::Nfa::find_state$")
     search_rule(r"internal::nfa::Nfa::find_state$", "find_state:first-state-with-that-id", "self.states", is_some_item, is_none,
                 lambda c: is_eq_of(c, r"item@bb\d+\)?\.state$", r"^state$"), inline=r"NfaState::id$")
 
